@@ -114,8 +114,13 @@ func runJumps(t *testing.T, rt *rapid.T) {
 		}
 	}
 	nOps := rapid.IntRange(2, 40).Draw(rt, "nOps")
+	forceAdd := false
 	for i := 0; i < nOps; i++ {
-		if rapid.IntRange(0, 2).Draw(rt, "op") == 0 {
+		// after a jump that was not followed by quiescence the next operation is a registration (a second
+		// jump would move the fake clock while the deadliner is between reading the time and arming its
+		// next timer, which only makes that timer late by the size of the jump: an artefact of a clock
+		// that moves in steps, not a behaviour of the deadliner)
+		if !forceAdd && rapid.IntRange(0, 2).Draw(rt, "op") == 0 {
 			// a jump: draw the target among the lattice instants (and between them), capped so that at
 			// most 8 pending duties become due
 			now := clock.Now().Sub(w.base)
@@ -145,9 +150,11 @@ func runJumps(t *testing.T, rt *rapid.T) {
 				// the next registration reaches the deadliner while the timers this jump made due are still
 				// unhandled (its select may take either first)
 				trace = append(trace, "nowait")
+				forceAdd = true
 				continue
 			}
 		} else {
+			forceAdd = false
 			d := duties[rapid.IntRange(0, len(duties)-1).Draw(rt, "duty")]
 			now := clock.Now()
 			status := dl.Add(d)
